@@ -141,7 +141,7 @@ const (
 )
 
 func (c *Ctx) ruleLoggerContext(id string) {
-	ru := c.R.Rule(id, "wasp.L(ctx) is never called with a context built from context.Background()/TODO() without StoreLogger: L type-asserts the stored logger and panics on a bare context, and the publish workers, the writer and the expiry sweep run without recover", "E3 typestate of context values with interprocedural parameter meet", 10)
+	ru := c.R.Rule(id, "wasp.L(ctx) is never called with a context built from context.Background()/TODO() without StoreLogger: L type-asserts the stored logger and panics on a bare context, and the publish workers, the writer and the expiry sweep run without recover", "E3 typestate of context values with interprocedural parameter meet", 5)
 	lf := c.fo(ru, "wasp", "L")
 	store := c.fo(ru, "wasp", "StoreLogger")
 	addf := c.fo(ru, "wasp", "AddFields")
